@@ -1,7 +1,41 @@
+import MythVerif.Model.JcArith
 import Driver.Util
-/-! `drv_jc`: stub, to be filled in -/
+/-! `drv_jc`: join-counter model behind the line protocol of the harnesses.  Arithmetic lines only
+    for now (harness/jc_arith.c):
+
+    jcbits N        -> "bits mask"                 (calc_bits / state_mask of init)
+    jcdec N S       -> "excess" | "S' decs waiters wake"   (one dec on state word S)
+    jcwait N S      -> "done" | "S' decs waiters"   (the announcement step of wait) -/
 namespace Driver.Jc
+open MythVerif.JcArith
+
+def handle (line : String) : String :=
+  match Driver.words line with
+  | ["jcbits", n] =>
+    match n.toNat? with
+    | some n => s!"{calcBits n} {mask n}"
+    | none => "bad-op"
+  | ["jcdec", n, s] =>
+    match n.toNat?, s.toNat? with
+    | some n, some s =>
+      match dec n s with
+      | none => "excess"
+      | some (s', wake) => s!"{s'} {decsOf n s'} {waitersOf n s'} {wake}"
+    | _, _ => "bad-op"
+  | ["jcwait", n, s] =>
+    match n.toNat?, s.toNat? with
+    | some n, some s =>
+      match waitAnnounce n s with
+      | none => "done"
+      | some s' => s!"{s'} {decsOf n s'} {waitersOf n s'}"
+    | _, _ => "bad-op"
+  | _ => "bad-op"
+
 def run (_args : List String) : IO UInt32 := do
-  IO.eprintln "drv_jc: not implemented"
-  return 2
+  let stdin ← IO.getStdin
+  let _ ← Driver.forLines stdin () fun _ line => do
+    IO.println (handle line)
+    pure ()
+  return 0
+
 end Driver.Jc
